@@ -4,6 +4,7 @@ package sync
 
 import (
 	"fmt"
+	"reflect"
 	"sort"
 
 	enc "github.com/named-data/ndnd/std/encoding"
@@ -103,4 +104,14 @@ func (s *SvSync) VerifDump() string {
 	}
 	sort.Strings(x)
 	return fmt.Sprintf("suppress=%v %v", s.suppress, x)
+}
+
+// VerifFieldSignature: see dv/table.VerifFieldSignature.
+func VerifFieldSignature() string {
+	t := reflect.TypeOf(SvSync{})
+	out := "SvSync{"
+	for i := 0; i < t.NumField(); i++ {
+		out += t.Field(i).Name + ":" + t.Field(i).Type.String() + ";"
+	}
+	return out + "}"
 }
